@@ -166,6 +166,8 @@ var voteClasses = []struct {
 
 var qcPhases = []lib.Phase{lib.Phase_ELECTION_VOTE, lib.Phase_PROPOSE_VOTE, lib.Phase_PRECOMMIT_VOTE, lib.Phase_PROPOSE, lib.Phase_COMMIT, lib.Phase_ROUND_INTERRUPT, lib.Phase_UNKNOWN}
 
+var partialMu sync.Mutex
+
 func digestKinds(e *env) []*kindCfg {
 	pool := e.anyPool()
 	genQC := func(rng *rand.Rand, phase lib.Phase) *lib.QuorumCertificate {
@@ -220,6 +222,29 @@ func digestKinds(e *env) []*kindCfg {
 			digests:  []digestFn{{"SignBytes", func(m proto.Message) []byte { return m.(*lib.QuorumCertificate).SignBytes() }}},
 			class:    func(m proto.Message) string { return m.(*lib.QuorumCertificate).GetHeader().GetPhase().String() },
 			excluded: qcExcluded,
+			gen:      func(rng *rand.Rand, i int) proto.Message { return genQC(rng, qcPhases[i%len(qcPhases)]) },
+		},
+		{
+			// the identity the REAL bft.AddPartialQC gives a partial certificate kept as candidate evidence: the key under which
+			// it lands in BFT.PartialQCs (two certificates that accuse different signers must not overwrite each other)
+			kind: "partial-qc",
+			digests: []digestFn{{"PartialQCsKey", func(m proto.Message) []byte {
+				partialMu.Lock()
+				defer partialMu.Unlock()
+				if e.bft == nil {
+					e.buildBFT()
+				}
+				e.bft.PartialQCs = bft.PartialQCs{}
+				if err := e.bft.AddPartialQC(&bft.Message{Qc: proto.Clone(m).(*lib.QuorumCertificate)}); err != nil {
+					return mustE(lib.Marshal(m)) // not stored: no identity assigned (never collides)
+				}
+				for k := range e.bft.PartialQCs {
+					return []byte(k)
+				}
+				return mustE(lib.Marshal(m))
+			}}},
+			class:    func(m proto.Message) string { return m.(*lib.QuorumCertificate).GetHeader().GetPhase().String() },
+			excluded: func(string, string, string) bool { return false },
 			gen:      func(rng *rand.Rand, i int) proto.Message { return genQC(rng, qcPhases[i%len(qcPhases)]) },
 		},
 		{
@@ -439,7 +464,7 @@ func digestCase(run *core.Run, e *env, c *kindCfg, name string, i int, obs map[s
 
 func injDigests(run *core.Run, e *env) {
 	kinds := digestKinds(e)
-	per := map[string]int{"tx": core.Pick(64, 2400), "vote": core.Pick(48, 1600), "qc": core.Pick(28, 1400), "evidence": core.Pick(10, 400)}
+	per := map[string]int{"tx": core.Pick(64, 2400), "vote": core.Pick(48, 1600), "qc": core.Pick(28, 1400), "evidence": core.Pick(10, 400), "partial-qc": core.Pick(20, 600)}
 	type job struct {
 		c    *kindCfg
 		i    int
@@ -524,7 +549,7 @@ func TestCheck(t *testing.T) {
 	run.Extra("stage_seconds", stages) // informational only; no verdict depends on it
 	if os.Getenv("VERIF_CASE") == "" {
 		// every monitor must have looked at something, otherwise silence proves nothing
-		for _, k := range []string{"inj_digest_pairs_compared", "inj_pairs_tx", "inj_pairs_vote", "inj_pairs_qc", "inj_pairs_evidence", "keys_built", "prefix_range_checks",
+		for _, k := range []string{"inj_digest_pairs_compared", "inj_pairs_tx", "inj_pairs_vote", "inj_pairs_qc", "inj_pairs_evidence", "inj_pairs_partial-qc", "keys_built", "prefix_range_checks",
 			"store_gets_compared", "store_iterations_compared", "indexer_queries_compared", "unknown_injections", "unknown_rejected", "oversize_cases",
 			"dec_inputs_executed", "dec_decoded_ok", "dec_decode_rejected", "dec_checktx_accepted", "dec_bft_messages_accepted", "dec_qc_passed_check"} {
 			if run.Counter(k) == 0 {
